@@ -1,5 +1,6 @@
 import SunriseVerif.Model.Dec
 import SunriseVerif.Gen.KernelsCL
+import SunriseVerif.Model.TickKey
 /-! Line-protocol evaluation of the Dec primitives (`D …`) and regenerated kernels (`K …`). -/
 namespace Sunrise.Driver
 open Sunrise Sunrise.Gen.KernelsCL
@@ -37,6 +38,8 @@ def evalK : List String → String
   | ["NextQuoteIn", c, l, a] => g (GetNextSqrtPriceFromAmountQuoteInRoundingDown_ok (pDec c) (pDec l) (pDec a)) (r (GetNextSqrtPriceFromAmountQuoteInRoundingDown (pDec c) (pDec l) (pDec a)))
   | ["NextQuoteOut", c, l, a] => g (GetNextSqrtPriceFromAmountQuoteOutRoundingDown_ok (pDec c) (pDec l) (pDec a)) (r (GetNextSqrtPriceFromAmountQuoteOutRoundingDown (pDec c) (pDec l) (pDec a)))
   | ["GetLiquidityFromAmounts", c, pa, pb, ab, aq] => g (GetLiquidityFromAmounts_ok (pDec c) (pDec pa) (pDec pb) (pInt ab) (pInt aq)) (r (GetLiquidityFromAmounts (pDec c) (pDec pa) (pDec pb) (pInt ab) (pInt aq)))
+  | ["TickIndexToBytes", t] => " ".intercalate ((Sunrise.TickKey.bytes (pInt t)).map toString)
+  | ["IsCurrentTickInRange", c, lo, hi] => if IsCurrentTickInRange (pInt c) (pInt lo) (pInt hi) then "1" else "0"
   | ["bfq_OutGivenIn", lim, fee, c, t, l, a] => g (bfq_ComputeSwapWithinBucketOutGivenIn_ok (pDec lim) (pDec fee) (pDec c) (pDec t) (pDec l) (pDec a)) (r4 (bfq_ComputeSwapWithinBucketOutGivenIn (pDec lim) (pDec fee) (pDec c) (pDec t) (pDec l) (pDec a)))
   | ["bfq_InGivenOut", lim, fee, c, t, l, a] => g (bfq_ComputeSwapWithinBucketInGivenOut_ok (pDec lim) (pDec fee) (pDec c) (pDec t) (pDec l) (pDec a)) (r4 (bfq_ComputeSwapWithinBucketInGivenOut (pDec lim) (pDec fee) (pDec c) (pDec t) (pDec l) (pDec a)))
   | ["qfb_OutGivenIn", lim, fee, c, t, l, a] => g (qfb_ComputeSwapWithinBucketOutGivenIn_ok (pDec lim) (pDec fee) (pDec c) (pDec t) (pDec l) (pDec a)) (r4 (qfb_ComputeSwapWithinBucketOutGivenIn (pDec lim) (pDec fee) (pDec c) (pDec t) (pDec l) (pDec a)))
